@@ -1,4 +1,4 @@
-import Xandikos.Theorems.C07
+import Xandikos.Theorems.C07Code
 #print axioms Xandikos.Theorems.C07.listed_bare
 #print axioms Xandikos.Theorems.C07.changed_iff
 #print axioms Xandikos.Theorems.C07.removed_iff
@@ -11,3 +11,7 @@ import Xandikos.Theorems.C07
 #print axioms Xandikos.Theorems.C07.issued_token_is_valid
 #print axioms Xandikos.Theorems.C07.objs_monotone
 #print axioms Xandikos.Theorems.C07.sync_exact
+#print axioms Xandikos.Theorems.C07.code_is_model_iter_changes
+#print axioms Xandikos.Theorems.C07.code_reports_nothing_when_unchanged
+#print axioms Xandikos.Theorems.C07.code_reports_changed_iff
+#print axioms Xandikos.Tie.iter_changes_eq
